@@ -37,7 +37,7 @@ class Ctx:
         self.write_evidence = write_evidence
         self.repo = os.environ.get("VERIF_REPO", "/repo")
         self.lib = os.path.join(self.repo, "lib")
-        self.budget = float(os.environ.get("VERIF_BUDGET") or (10 if tier == "quick" else 60))
+        self.budget = float(os.environ.get("VERIF_BUDGET") or (20 if tier == "quick" else 60))
         self.t0 = time.time()
         self.obligations = []     # all, solved or pending
         self.pending = []
@@ -102,12 +102,17 @@ class Ctx:
         todo, self.pending = self.pending, []
         if not todo:
             return []
-        solve.solve_all(todo, self.budget)
-        # retry unknowns once with a tripled budget, alone (a busy machine must not flip a verdict)
-        for ob in todo:
-            if ob["status"] == "unknown" and not ob["probe"]:
-                solve.solve_one(ob, self.budget * 3)
+        confirm = 2 if self.tier == "thorough" else None
+        solve.solve_all(todo, self.budget, confirm=confirm)
+        # retry unknowns once with a tripled budget (a busy machine must not flip a verdict)
+        again = [ob for ob in todo if ob["status"] == "unknown" and not ob["probe"]]
+        if again:
+            for ob in again:
                 ob["retried"] = True
+            solve.solve_all(again, self.budget * 3, jobs=8, confirm=confirm)
+        for ob in todo:
+            if ob["status"] == "conflict":
+                raise RuntimeError("back ends disagree on %s: %s" % (ob["name"], ob["backend"]))
         for ob in todo:
             self._triage(ob)
         return todo
@@ -211,6 +216,7 @@ class Ctx:
             per_obligation=[dict(name=o["name"], function=o["function"], kind=o["kind"],
                                  status={"unsat": "discharged", "sat": "refuted"}.get(o["status"], o["status"]),
                                  backend=o.get("backend"), seconds=o.get("seconds")) for o in real],
+            confirmed_by_second_backend=sum(1 for o in discharged if o.get("confirmed")),
             vacuity_probes=dict(count=len(probes), all_rejected=all(p["status"] != "unsat" for p in probes)),
             bounded_stand_ins=self.bounded_parts,
             unproved_functions=self.unproved,
